@@ -18,6 +18,7 @@ import Ptn.C10.BondLocalCS
 import Ptn.C10.SvdRun
 import Ptn.C10.TruncValue
 import Ptn.C10.TruncValueDemo
+import Ptn.C10.LevelRun
 /-! Property theorems for C10 (selection rule of the singular-value truncation).  Only property
 theorems and non-vacuity examples live here; helper lemmas are in `Lemmas.lean`, the
 specification vocabulary (`Desc`, `NonNeg`, `survives`, `Fits`, `capMin`, `renormFactor`) in
@@ -1052,5 +1053,61 @@ example : ∃ t' v', TRun t0 [.ident 2 1 7, .split 7 ⟨some 1, [], [], false⟩
   exact ⟨t', v', this.1, this.2.2.2.2.2.2.2.1⟩
 
 end trunc_value
+
+section level_run
+open Ptn.C02 Ptn.C03 Ptn.Ein
+variable {R : Type} [CommSemiring R]
+
+/-- **`truncate_node(n)` without the recursive calls, ALL children, at the value level** (builder B54).  Hypotheses: a
+    well-formed, label-consistent state `t` of the structural model with a related well-formed valued network `v`; the
+    value-level history `Lr54LevelRun` of the first loop over the children `es` (per child: the read-only prefix `pre`,
+    `insert_identity(c, n)`, the identity replaced by `Π_c` reading only the two legs of the identity node, the split into
+    the projector pair with an exact factorisation of `Π_c` - the contract of the projector construction), followed by ANY
+    simulated history `ops2` (`contract_all_children(n)`, the contractions of the projectors into the children).  Then:
+    all invariants hold at the end; with `pre = [.access n]` the first part IS the model's `truncLoop1` over these
+    children; if `ops2` is the list of contractions `contract_nodes(n, c, n)` over the children of `n` after the first
+    loop, it IS `contractAllChildren n n`; the value after the level is reached from the value before by a CHAIN of
+    single-leaf replacements (`Lr54Chain`: for each child, a well-formed network with the current value carries the
+    Kronecker delta at the identity node, and the next value is that network with the delta replaced by `Π_c`); if every
+    `Π_c` is the delta, the value is unchanged.
+    *Missing* (hence `_partial`): the flat form (the ORIGINAL network with `Π_c` on every child bond at once - needs that a
+    leaf replacement commutes with the later simulated steps), that `truncateNodeStep` succeeding yields such a run
+    (admissibility of every step as a `SimStep`), the third loop as the model's `truncLoop3`, and the recursion. -/
+theorem truncate_node_one_level_partial (dim : Nat → Nat) (e : Label → Nat) {n : Id} {ids : TTN.TempIds}
+    {kdim : Id → Nat} {pre ops2 : List TOp} {t t1 t' : TTN} {g g1 g' : LegMap} {v v1 v' : VNet R}
+    {es : List (Lr54Entry R)}
+    (h : t.WF) (hl : t.LWF) (hv : v.WF) (hs : RSim dim e g t v)
+    (hr : Lr54LevelRun dim e n ids kdim pre t g v es t1 g1 v1)
+    (hr2 : SimRun dim e t1 g1 v1 ops2 t' g' v') :
+    t'.WF ∧ t'.LWF ∧ v'.WF ∧ RSim dim e g' t' v' ∧
+    (pre = [.access n] → TTN.truncLoop1 t n ids kdim (es.map (·.c)) = some t1) ∧
+    (∀ node1, t1.N n = some node1 → ops2 = node1.children.map (fun c => TOp.contract n c n) →
+      t1.contractAllChildren n n = some t') ∧
+    Lr54Chain dim ids (fun σ => v.value dim σ) es (fun σ => v'.value dim σ) ∧
+    ((∀ x ∈ es, x.Pi = lr54Delta x.a) → ∀ σ, v'.value dim σ = v.value dim σ) := by
+  obtain ⟨w1, l1, vw1, s1, loop1, chain⟩ := lr54_level_core dim e h hl hv hs hr
+  obtain ⟨run2, _, w2, l2, vw2, s2, _, val2⟩ := structural_history_preserves_value dim e w1 l1 vw1 s1 hr2
+  have chain' : Lr54Chain dim ids (fun σ => v.value dim σ) es (fun σ => v'.value dim σ) :=
+    lr54Chain_congr_right chain (fun σ => val2 σ)
+  refine ⟨w2, l2, vw2, s2, loop1, ?_, chain', fun hid σ => lr54Chain_identity chain' hid σ⟩
+  intro node1 hn hops
+  subst hops
+  exact lr54_contractAll_of_run hn run2
+
+open Ptn.C02.SimDemo Ptn.C10.TvDemo in
+/-- non-vacuity: the two-node network of `SimDemo`, the single child `2` of node `1`, `Π = |0⟩⟨0|` (not the delta), the
+    exact split of `TvDemo.factb`; empty prefix and empty tail -/
+example : ∃ t' g' v', Lr54LevelRun (R := Int) SimDemo.dim SimDemo.e 1 ⟨fun _ => 7, fun _ => 8, fun _ => 9⟩ (fun _ => 3) []
+    t0 SimDemo.g v0 [⟨2, v0.next, Pi0⟩] t' g' v' ∧
+    Lr54Chain SimDemo.dim ⟨fun _ => 7, fun _ => 8, fun _ => 9⟩ (fun σ => v0.value SimDemo.dim σ) [⟨2, v0.next, Pi0⟩]
+      (fun σ => v'.value SimDemo.dim σ) := by
+  obtain ⟨hid, hadm, hdep, t', g', v', hr⟩ := simrunb
+  have hlr : Lr54LevelRun (R := Int) SimDemo.dim SimDemo.e 1 ⟨fun _ => 7, fun _ => 8, fun _ => 9⟩ (fun _ => 3) []
+      t0 SimDemo.g v0 [⟨2, v0.next, Pi0⟩] t' g' v' :=
+    .cons (.nil _ _ _) (.cons hadm hid (.nil _ _ _)) hdep hr (.nil _ _ _)
+  have := truncate_node_one_level_partial SimDemo.dim SimDemo.e t0_wf.1 t0_wf.2 v0_wf rsim0 hlr (.nil _ _ _)
+  exact ⟨t', g', v', hlr, this.2.2.2.2.2.2.1⟩
+
+end level_run
 
 end Ptn.C10
